@@ -765,6 +765,9 @@ def _isinstance(obj, cls):
 
 
 def _int(x=0, base=None):
+    from sxl.sfloat import SDyad
+    if x.__class__ is SDyad:
+        return x.trunc()
     if base is None and (x.__class__ is SInt or x.__class__ is Bit):
         return x if x.__class__ is SInt else SInt.of(x)
     if x.__class__ is Choice:
@@ -784,11 +787,12 @@ def _bin(x):
         from sxl.sstr import SBin
         lo, hi = x.interval()
         if lo < 0:
-            raise NotImplementedError("bin() of possibly negative symbolic int")
+            if not explore.decide(_t(as_cond(x >= 0))):
+                raise Inconclusive("bin() of a negative symbolic int")
         n = x.bit_length()            # forks on the bit length
         if n == 0:
             return "0b0"
-        b = x.ubits()
+        b = x.tc()[:-1] if lo < 0 else x.ubits()
         return SBin(["0", "b", "1"] + [b[i] for i in reversed(range(n - 1))])
     return bin(x)
 
@@ -876,6 +880,9 @@ def _init_dispatch():
     import secrets
     _DISPATCH[secrets.token_bytes] = _token_bytes
     _DISPATCH[_array_mod.array] = _array
+    import math
+    from sxl import sfloat
+    _DISPATCH[math.copysign] = sfloat.copysign
 
 
 TABULATE_CALLS = set()   # pure functions tabulated over one small symbolic int argument (exhaustive concrete evaluation)
